@@ -5,6 +5,8 @@ HEADER = 'From WM Require Import Base.Prelude Message.Model Handler.RouterHandle
 ST = ['Unsettled', 'Acked', 'Nacked']
 SIG_TWICE = 'C20/handler-middleware-twice-counts-twice'
 SIG_D11 = 'C20/handler-panic-recorded-as-success'
+SIG_PUBPANIC = 'C20/publisher-panic-recorded-as-success'
+E_PANIC = 3
 
 TRUSTED_BASE = [
     'modelled, not verified: Prometheus CounterVec/HistogramVec as a log of label tuples (a counter value / histogram sample count = number of occurrences), '
@@ -151,8 +153,8 @@ def bad_rows(rows):
     return [r for r in rows if any(isinstance(x, str) for x in r)]
 
 # ------------------------------------------------------------------ the run
-def one_round(res, pid, seed, n, rnd):
-    binary = C.build_harness()
+def one_round(res, pid, seed, n, rnd, race=False):
+    binary = C.build_harness(race=race)
     data, _ = C.run_harness(binary, ['c20', '-seed', str(seed), '-n', str(n)], pid, 'c20_%d.json' % rnd)
     strings = data['strings']
     # ---- glue
@@ -180,6 +182,8 @@ def one_round(res, pid, seed, n, rnd):
                     res.count('pub result=%s' % ('nil' if k['res'] is None else strings[k['res']][:24]))
                     res.count('pub wrapped-publisher calls per Publish=%d' % len([e for e in k['ev'] if e[0] == 'i']))
                     if k['before'] and k['before'][0]['mark']: res.count('pub first object already counted')
+                    if len(set(k['batch'])) < len(k['batch']): res.count('pub batch holds the same object more than once')
+                    if k['res'] == E_PANIC: res.count('pub wrapped publisher panicked')
                 for d in first_decisions(c): res.count('delay decision=' + d)
                 if c['concurrent']: res.count('pub concurrent cases')
                 res.count('pub objects received through a metrics subscriber before', c['pre_received'])
@@ -203,7 +207,11 @@ def one_round(res, pid, seed, n, rnd):
                         'delay metadata by precedence / nothing published on a rejected batch / one publish observation per counted call with the right label)') if key == 'pub' else \
                        ('decorated subscriber rejected by Decor.Monitor.sub_monitor (same objects in order / transforms once / settling the received message settles the wrapped one / '
                         'Close once with its error / one counter increment per settled delivered message with the right label)')
-                res.violations.append(dict(signature='C20/%s-monitor' % key, what=what, case=desc(chunk[i], strings)))
+                sig = 'C20/%s-monitor' % key
+                if key == 'pub' and any(k['res'] == E_PANIC for k in chunk[i]['calls']):
+                    sig, what = SIG_PUBPANIC, ('PublisherPrometheusMetricsDecorator records a Publish call whose wrapped publisher PANICS with success="true" '
+                                               '(the deferred observer sees err == nil while the panic propagates)')
+                res.violations.append(dict(signature=sig, what=what, case=desc(chunk[i], strings)))
             for i in r['R_mis']:
                 res.mismatches.append(dict(kind='Corr.C20.%s_mismatch (Decor/Model.v vs the real decorator stack)' % key, explained_by_violation=i in r['R_vio'], case=desc(chunk[i], strings)))
         if rnd == 0 and good:
@@ -259,6 +267,17 @@ def run(ctx):
     rounds, n = (1, 200) if tier == 'quick' else (6, 600)
     for rnd in range(rounds):
         one_round(res, pid, seed * 1000 + rnd, n, rnd)
+    if tier == 'thorough':
+        # TESTING, not proof: the same scenarios once more on a -race build (concurrent publishes, watcher goroutines,
+        # pumps); a detected race makes the harness exit non-zero, which fails the check
+        try:
+            one_round(res, pid, seed * 1000 + 77, 300, 77, race=True)
+            res.extra['race_build'] = 'scenarios re-run on a -race build: no data race reported (testing)'
+        except C.CheckError as e:
+            if 'DATA RACE' in str(e):
+                res.violations.append(dict(signature='C20/data-race', what='the Go race detector reported a data race in a decorator scenario', case=str(e)[-3000:]))
+            else:
+                raise
     res.rule = ('random decorator stacks of depth 0..3 (transform / delay with generator on-off and AllowNoDelay on-off / Prometheus metrics, incl. the same metrics decorator twice or three times and both '
                 'nesting orders) around a scripted publisher (answers per call, Close error) resp. subscriber; batches of 0/1/n objects re-published across calls, delay metadata present / empty / '
                 'only one key / garbage, context delays For/Until (zero value, past, now, far future, other zone), generator answers and errors at any index; every 5th publisher case runs its calls '
